@@ -55,6 +55,7 @@ type FuncContract struct {
 	Ghost      []string
 	Appends    []*AppendClause
 	AllowGlobals bool    // frame: package-level state (the atomic id counter) may change
+	InlineCalls bool     // calls to library functions are executed, not abstracted by their contracts (lemma functions)
 	ModReach   bool      // frame: everything reachable from the receiver may change (decoders fill owned buffers)
 	Auto       bool      // synthesised for an implementer of a contracted interface
 	RefinePre  []*Clause // interface preconditions that must imply this contract's own preconditions
@@ -637,6 +638,10 @@ func (db *ContractDB) parseFile(pkg, file string) {
 				curF.NoSafety = true
 			case "allowglobals":
 				curF.AllowGlobals = true
+			case "inlinecalls":
+				curF.InlineCalls = true
+			case "modreach":
+				curF.ModReach = true
 			case "pure":
 				curF.Pure = true
 			case "allocbound":
@@ -1445,6 +1450,9 @@ func (e *Env) indexExpr(n *ast.IndexExpr) tv {
 	case VArray:
 		et := a.t.Underlying().(*types.Array).Elem()
 		return tv{arrayRead(s, idx), et}
+	case VArrayRef:
+		et := a.t.Underlying().(*types.Array).Elem()
+		return tv{e.st.loadPtr(VPtr{Obj: s.Obj, Path: []PathEl{{Index: idx, Field: -1}}}), et}
 	case VPtr:
 		if at, ok := a.t.Underlying().(*types.Pointer); ok {
 			if arr, ok2 := at.Elem().Underlying().(*types.Array); ok2 {
@@ -1643,6 +1651,17 @@ func (e *Env) callExpr(n *ast.CallExpr) tv {
 				return tv{VStr{Lit: &u}, types.Typ[types.String]}
 			}
 			return tv{VStr{ID: App("strings.ToUpper", BV(64), sv.ID)}, types.Typ[types.String]}
+		case "sametype":
+			// sametype(a, b): two interface values hold the same dynamic type (both known to the executor)
+			a, ok1 := e.eval(n.Args[0]).v.(VIface)
+			b, ok2 := e.eval(n.Args[1]).v.(VIface)
+			if !ok1 || !ok2 {
+				evalFail("sametype of non-interfaces in %q", e.in)
+			}
+			if a.Dyn == nil || b.Dyn == nil {
+				return tv{VBool{False}, types.Typ[types.Bool]}
+			}
+			return tv{VBool{BoolC(types.Identical(a.Dyn, b.Dyn))}, types.Typ[types.Bool]}
 		case "pad8":
 			a := e.intArg(n.Args[0])
 			return tv{VInt{Mul(UDiv(Add(a, Const(64, 7)), Const(64, 8)), Const(64, 8))}, types.Typ[types.Int]}
@@ -1702,6 +1721,26 @@ func (e *Env) callExpr(n *ast.CallExpr) tv {
 				}
 			}
 			return tv{VInt{t}, map[int]types.Type{1: types.Typ[types.Uint8], 2: types.Typ[types.Uint16], 4: types.Typ[types.Uint32], 8: types.Typ[types.Uint64]}[nb]}
+		case "allzero":
+			// allzero(s): every byte of the slice is zero (assumed: constructively; proved: at a skolem index)
+			a, ok := e.eval(n.Args[0]).v.(VSlice)
+			if !ok {
+				evalFail("allzero of non-slice in %q", e.in)
+			}
+			if a.Obj == 0 {
+				return tv{VBool{True}, types.Typ[types.Bool]}
+			}
+			if e.negated {
+				evalFail("allzero under negation/disjunction in %q", e.in)
+			}
+			if e.assuming {
+				o := *e.st.heap[a.Obj]
+				o.Mem = o.Mem.Copy(a.Off, bmZeros, Const(64, 0), Ite(e.guard, a.Len, Const(64, 0)))
+				e.st.heap[a.Obj] = &o
+				return tv{VBool{True}, types.Typ[types.Bool]}
+			}
+			i := Fresh("skolem_z", BV(64))
+			return tv{VBool{Implies(ULt(i, a.Len), Eq(e.readByte(a, i), Const(8, 0)))}, types.Typ[types.Bool]}
 		case "bytes_eq":
 			// bytes_eq(a, aoff, b, boff, n): checked at a skolem index
 			return e.bytesEq(n)
